@@ -66,7 +66,8 @@ class ControlFlowTransformer(converter.Base):
     return results
 
   def _create_state_functions(
-      self, block_vars, nonlocal_declarations, getter_name, setter_name):
+      self, block_vars, nonlocal_declarations, getter_name, setter_name,
+      reserved=frozenset()):
     if not block_vars:
       template = """
         def getter_name():
@@ -90,7 +91,8 @@ class ControlFlowTransformer(converter.Base):
 
     # The setter's parameter must not clash with the state variables, which
     # are declared nonlocal in its body.
-    vars_name = self.ctx.namer.new_symbol('vars_', block_vars)
+    vars_name = self.ctx.namer.new_symbol(
+        'vars_', frozenset(block_vars) | reserved)
     template = """
       def getter_name():
         return guarded_state_vars,
@@ -220,7 +222,8 @@ class ControlFlowTransformer(converter.Base):
     state_getter_name = self.ctx.namer.new_symbol('get_state', reserved)
     state_setter_name = self.ctx.namer.new_symbol('set_state', reserved)
     state_functions = self._create_state_functions(
-        cond_vars, nonlocal_declarations, state_getter_name, state_setter_name)
+        cond_vars, nonlocal_declarations, state_getter_name, state_setter_name,
+        reserved)
 
     orelse_body = node.orelse
     if not orelse_body:
@@ -275,7 +278,8 @@ class ControlFlowTransformer(converter.Base):
     state_getter_name = self.ctx.namer.new_symbol('get_state', reserved)
     state_setter_name = self.ctx.namer.new_symbol('set_state', reserved)
     state_functions = self._create_state_functions(
-        loop_vars, nonlocal_declarations, state_getter_name, state_setter_name)
+        loop_vars, nonlocal_declarations, state_getter_name, state_setter_name,
+        reserved)
 
     opts = self._create_loop_options(node)
 
@@ -327,7 +331,8 @@ class ControlFlowTransformer(converter.Base):
     state_getter_name = self.ctx.namer.new_symbol('get_state', reserved)
     state_setter_name = self.ctx.namer.new_symbol('set_state', reserved)
     state_functions = self._create_state_functions(
-        loop_vars, nonlocal_declarations, state_getter_name, state_setter_name)
+        loop_vars, nonlocal_declarations, state_getter_name, state_setter_name,
+        reserved)
 
     opts = self._create_loop_options(node)
     opts.keys.append(ast.Constant('iterate_names'))
